@@ -92,3 +92,39 @@ def numpy_allocators():
 
 def memory_error(name):
     return MemoryError(f'Unable to allocate array (injected into numpy.{name})')
+
+
+class AttributeInjector(Injector):
+    """an Injector whose targets may also be read-only properties of a class: READING the attribute from code under REPO is the call
+    that is counted / made to fail (e.g. shapely's `geometry.is_valid`, `geometry.convex_hull`, which run a GEOS operation)"""
+
+    def _wrap(self, orig, name):
+        if isinstance(orig, property):
+            return property(Injector._wrap(self, orig.fget, name), orig.fset, orig.fdel, orig.__doc__)
+        return Injector._wrap(self, orig, name)
+
+
+def geos_operations(properties=False):
+    """targets for the GEOS predicates / set operations of shapely, as methods of the geometry classes and as functions of the shapely
+    module (whichever spelling the code under test uses; calls shapely makes internally are never counted). With `properties` also the
+    operations spelled as attributes (validity test, convex hull, length, area) - these need an AttributeInjector."""
+    import shapely
+    from shapely.geometry.base import BaseGeometry
+    names = ['intersects', 'intersection'] + (['is_valid', 'convex_hull', 'length', 'area'] if properties else [])
+    out = []
+    for n in names:
+        if n in BaseGeometry.__dict__:
+            out.append((BaseGeometry, n))
+        if callable(getattr(shapely, n, None)):
+            out.append((shapely, n))
+    return out
+
+
+def geos_error(kind):
+    """make_exc for a failing GEOS operation: kind = 'TopologicalError' (what shapely 1 raised) or 'GEOSException' (what shapely 2 raises)"""
+    import shapely.errors
+
+    def make(name):
+        cls = getattr(shapely.errors, kind, None) or shapely.errors.ShapelyError
+        return cls(f'TopologyException: side location conflict (injected into {name})')
+    return make
